@@ -442,11 +442,58 @@ example : LitAfterLoopFact id lalLit (· == 120) fdText lalAttempt := by
 example : finderLiteralAfterLoop id lalLit fdText 2 0 = (true, 0) ∧ finderLiteralAfterLoop id lalLit fdText 2 3 = (true, 4) ∧
     finderLiteralAfterLoop id lalLit fdText 2 5 = (false, 6) := by decide
 
+/-- **`RequiredLandmarkChain_LeftToRight`** (`findRequiredLandmarkChainLeftToRight`): if at every successful
+    attempt position `p` the text has, from `p`, a run of leading-loop characters, then a run of characters
+    that can be leading whitespace of the first landmark, then an alternative of the first landmark (as
+    `requiredLandmarkAlternativeMatch` tests it: optional/required whitespace before, the literal or the
+    greedy set run of `MinRepeat…MaxRepeat` characters, required whitespace after), then every later
+    landmark in order, each no earlier than the previous core start plus the shortest width of the
+    alternative used (`LandmarkFact`) — and `MinRequiredLength` is sound — then the chain search (first
+    position of the first landmark, every later landmark from the earliest end of the one before, walk
+    back over whitespace and the loop set, not below the current position) loses no match.  The
+    assumption that stood here before ("the helper is sound") is gone. -/
+theorem finder_landmarkChain_sound (ch : LmChain) (S : Nat → Bool) (first : List LmAlt) (rest : List (List LmAlt))
+    (text : List Nat) (minLen : Nat) (attempt : Nat → Option (Nat × Nat))
+    (hS : ch.loopSet = some S) (hL : ch.landmarks = first :: rest)
+    (hF : LandmarkFact S first rest text attempt)
+    (hM : MinLenSound false text.length minLen attempt) :
+    FinderSound false text.length (finderLandmarkChain ch text minLen) attempt :=
+  finderLandmarkChain_sound ch S first rest text minLen attempt hS hL hF hM
+
+/-- `x*\s*ab(?:cd|c)` as a chain: loop set {x}; landmark 1 = `ab` with optional leading whitespace, landmark 2
+    = `cd` or `c`.  On "xx abcd": successful attempts at 0, 1, 2 (all end at 7) and 3. -/
+def lmDemoChain : LmChain :=
+  { loopSet := some (· == 120),
+    landmarks := [[{ literal := [97, 98], leadWs := some (· == 32), minRepeat := 1, maxRepeat := 1 }],
+                  [{ literal := [99, 100], minRepeat := 1, maxRepeat := 1 }, { literal := [99], minRepeat := 1, maxRepeat := 1 }]] }
+def lmDemoText : List Nat := [120, 120, 32, 97, 98, 99, 100]
+def lmDemoAttempt : Nat → Option (Nat × Nat) := fun p => if p ≤ 3 then some (p, 7 - p) else none
+
+example : LandmarkFact (· == 120) [{ literal := [97, 98], leadWs := some (· == 32), minRepeat := 1, maxRepeat := 1 }]
+    [[{ literal := [99, 100], minRepeat := 1, maxRepeat := 1 }, { literal := [99], minRepeat := 1, maxRepeat := 1 }]]
+    lmDemoText lmDemoAttempt := by
+  intro p hp h
+  have hp3 : p ≤ 3 := by
+    by_cases h3 : p ≤ 3
+    · exact h3
+    · simp [lmDemoAttempt, h3] at h
+  refine ⟨max p 2, 3, _, by omega, by omega, ?_, ?_, List.mem_cons_self, by decide,
+    ⟨5, _, by decide, List.mem_cons_self, by decide, trivial⟩⟩
+  · intro j h1 h2
+    have : j = 0 ∨ j = 1 := by omega
+    rcases this with rfl | rfl <;> decide
+  · intro j h1 h2
+    have : j = 2 := by omega
+    subst this; decide
+example : finderLandmarkChain lmDemoChain lmDemoText 3 0 = (true, 0) ∧ finderLandmarkChain lmDemoChain lmDemoText 3 1 = (true, 1) ∧
+    finderLandmarkChain lmDemoChain lmDemoText 3 4 = (false, 7) := by decide
+
 /-- **`findFirstCharDefault` as a whole.**  Whatever path the dispatch takes — anchor bits, else the
     Boyer-Moore prefix, else the helper of the find mode when `shouldUseFindFirstCharOptimized` says so,
     else the first-character set, else nothing — if the facts that path consumes are true at every
-    successful attempt (`FactsSound`; for the required-landmark chain the helper's soundness itself is
-    the assumption), the finder only skips positions at which the program fails. -/
+    successful attempt (`FactsSound`; every path now consumes a FACT about matches — for the Boyer-Moore
+    prefix `BmFact`, for the required-landmark chain `LandmarkFact` — and no path assumes the soundness or
+    the specification of a search routine), the finder only skips positions at which the program fails. -/
 theorem finder_default_sound (f : Facts) (text : List Nat) (textstart : Nat) (attempt : Nat → Option (Nat × Nat))
     (h : FactsSound f text textstart attempt) :
     FinderSound f.rtl text.length (finderDefault f text textstart) attempt :=
